@@ -23,8 +23,9 @@ fn step(s: &dyn Subject, k: usize, v: &Value, rep: &mut DeclReport) -> Option<Re
             if let Value::Str(_) = v {
                 return s.parse_string(&shown).map(conv);
             }
-            // precondition: the inner type's own Display/FromStr round trip reproduces the value
-            match s.inner_parse(&shown)? {
+            // precondition: the *inner* type's own Display/FromStr round trip reproduces the value
+            let inner_shown = views.display_inner.first()?.clone();
+            match s.inner_parse(&inner_shown)? {
                 Ok(back) if back == *v => {}
                 _ => {
                     rep.guard("display_fromstr_precondition_failed(skipped)");
